@@ -437,7 +437,9 @@ def random_file_trace(seed, tid, workdir, max_recs, trunc=True):
         if preset:
             g.position_format = (w, d)
         if boxm is not None:
-            g.box_matrix = boxm
+            handed = np.array(boxm, float)
+            g.box_matrix = handed
+            handed[...] = 777.0          # the writer keeps the value it was given, not the caller's array
         if rng.random() < 0.5:
             g.writelines(lines)
         else:
